@@ -61,6 +61,9 @@ def geom(name, tree='T1', nfree=6, window_mid=False, bounds=None, info=None):
         'G32e': dict(fat32=True, clusters=70000, bpc=1, nfats=1, lba=8, slot=0, ptype=0x0C, reserved=32),
     }[name]
     v = dict(P)
+    # volume serial numbers: any 32 bits (on FAT16 they sit where FAT32 keeps its FAT-mirroring flags)
+    v['serial'] = {'G16a': 0x00800000, 'G16b': 0xFFFFFFFF, 'G16c': 0x00810000, 'G16d': 0xA5A5A5A5, 'G16e': 0x80808080, 'G16f': 0x00008100,
+                   'G16g': 0x00008000, 'G16h': 0x0F0F8F0F, 'G32a': 0xFFFFFFFF, 'G32b': 0x80000001}.get(name, 0x12345678)
     n = v['clusters']
     bpc = v['bpc']
     upc = bpc * upb
@@ -149,7 +152,8 @@ def scripted(big=False):
         H.append(h)
 
     # S1: the regression shapes of C01 on several geometries
-    for gname in ['G16a', 'G32a', 'G16c', 'G32b', 'G16g', 'G32h']:
+    # (G16e: the largest FAT16 volume there is - its last clusters have the numbers 0xFFF0..0xFFF5, just below the bad-cluster mark)
+    for gname in ['G16a', 'G32a', 'G16c', 'G32b', 'G16g', 'G32h', 'G16e']:
         img = image_of(gname, tree='T1', nfree=8)
         upc = img[1]
         upb = len(img[2])
@@ -230,7 +234,7 @@ def scripted(big=False):
         add('S2-' + gname, img, ops, upc)
 
     # S3: fill to exactly full and back, twice; delete of multi-cluster files; truncate 1/2/many
-    for gname, nfree in [('G16a', 4), ('G16b', 4), ('G32a', 5), ('G32b', 4), ('G16c', 3), ('G16g', 3), ('G32c', 3)]:
+    for gname, nfree in [('G16a', 4), ('G16b', 4), ('G32a', 5), ('G32b', 4), ('G16c', 3), ('G16g', 3), ('G32c', 3), ('G16e', 6)]:
         img = image_of(gname, tree='T0', nfree=nfree, info=dict(info_free='unknown') if gname == 'G32b' else None)
         upc = img[1]
         ops = prologue()
@@ -304,6 +308,8 @@ def scripted(big=False):
         img = image_of(gname, tree='T2', nfree=6)
         # files with the hidden / system bits (writable) and a hidden read-only one, a zero-length file that owns a cluster
         img[0]['vols'][0]['root'] += [f('HIDSYS.DAT', attr=0x26), f('HIDRO.DAT', attr=0x23)]
+        # names another system may have left: a space inside the base name / the extension (only trailing spaces are padding)
+        img[0]['vols'][0]['root'] += [f('AB CD.TXT'), f('EXT.A B'), f('A B.C D', attr=0x21)]
         ops = prologue() + [O('open_dir', d='d0', name='SUB', as_='d1')]
         modes = ['ReadOnly', 'Append', 'Truncate', 'Create', 'CreateOrTruncate', 'CreateOrAppend']
         k = 0
@@ -328,6 +334,10 @@ def scripted(big=False):
             ops += [O('open_file', d='d0', name=bad, mode='Create', as_='t%d' % k), O('mkdir', d='d0', name=bad), O('delete', d='d0', name=bad),
                     O('find', d='d0', name=bad), O('open_dir', d='d0', name=bad, as_='dbad')]
             k += 1
+        for pre in ['AB.TXT', 'EXT.A', 'A.C', 'A', 'AB', 'EXT', 'A B.C']:
+            ops += [O('find', d='d0', name=pre), O('open_file', d='d0', name=pre, mode='ReadOnly', as_='t%d' % k), O('open_dir', d='d0', name=pre, as_='dpre'), O('delete', d='d0', name=pre)]
+            k += 1
+        ops += [O('iterate', d='d0')]
         ops += [O('open_file', d='d0', name='lower.txt', mode='Create', as_='lc'), O('close_file', f='lc'), O('find', d='d0', name='LOWER.TXT'),
                 O('open_file', d='d0', name='Lower.Txt', mode='Create', as_='lc2'),
                 O('mkdir', d='d0', name='SUB'), O('mkdir', d='d0', name='A.TXT'), O('mkdir', d='d0', name='newdir'),
@@ -575,6 +585,35 @@ def scripted(big=False):
                 O('delete', d=dd, name='GHOST.TXT'), O('open_dir', d=dd, name='GHOST.TXT', as_='dx'), O('iterate_lfn', d=dd)]
         ops += ([O('close_dir', d='d1')] if dirname else []) + [O('close_dir', d='d0'), O('close_volume', v='v0')]
         add('S24-' + gname, (dict(vols=[v]), upc, bounds), ops, upc, chk='listing')
+
+    # S25: large aligned rewrites of whole clusters while the block cache holds a block from the middle / the end of the run
+    # (read or partly written just before), then a small write into that very block; two files interleaved
+    for gname in ['G16c', 'G32c'] + (['G16d'] if big == 'full' else []):
+        img = image_of(gname, tree='T0', nfree=6)
+        upc = img[1]
+        upb = len(img[2])
+        bpc = upc // upb
+        ops = prologue() + [O('open_file', d='d0', name='RUN.BIN', mode='Create', as_='f0'), O('write', f='f0', n=2 * upc),
+                            O('open_file', d='d0', name='OTHER.BIN', mode='Create', as_='f1'), O('write', f='f1', n=upc)]
+        for blk in sorted({bpc - 1, 5 % bpc, 4 % bpc, 1}):
+            ops += [O('seek_start', f='f0', u=blk * upb + 1), O('read', f='f0', n=1),            # the cache holds block blk of cluster 0
+                    O('seek_start', f='f0', u=0), O('write', f='f0', n=upc),                      # the whole cluster rewritten, aligned
+                    O('seek_start', f='f0', u=blk * upb + 2), O('write', f='f0', n=1),            # a few bytes of that block
+                    O('seek_start', f='f0', u=0), O('read', f='f0', n=upc),
+                    O('seek_start', f='f0', u=upc + blk * upb), O('write', f='f0', n=1),          # partly written: cached, in cluster 1
+                    O('seek_start', f='f0', u=upb), O('write', f='f0', n=2 * upc - upb),          # a run across the cluster boundary
+                    O('seek_start', f='f0', u=upc + blk * upb + 1), O('write', f='f0', n=2),
+                    O('seek_start', f='f1', u=blk * upb), O('read', f='f1', n=1),                 # the other file's block cached
+                    O('seek_start', f='f0', u=0), O('write', f='f0', n=2 * upc),
+                    O('seek_start', f='f1', u=blk * upb + 1), O('write', f='f1', n=1),
+                    O('seek_start', f='f0', u=0), O('read', f='f0', n=2 * upc), O('seek_start', f='f1', u=0), O('read', f='f1', n=upc)]
+        # a few bytes in the middle of a block, then a whole block elsewhere in a cluster that is already located, then flush:
+        # what was flushed has to be on the medium whatever is written afterwards
+        ops += [O('seek_start', f='f0', u=upc + upb + 1), O('write', f='f0', n=1), O('seek_start', f='f0', u=0), O('write', f='f0', n=upb), O('flush', f='f0'),
+                O('seek_start', f='f1', u=2), O('write', f='f1', n=1), O('seek_start', f='f0', u=upb), O('write', f='f0', n=2 * upb), O('flush', f='f1'),
+                O('write', f='f1', n=upc), O('flush', f='f0'), O('mkdir', d='d0', name='AFTER')]
+        ops += [O('close_file', f='f0'), O('close_file', f='f1')] + epilogue()
+        add('S25-' + gname, img, ops, upc)
 
     # S7: several volumes at once
     img = image_multi()
@@ -974,6 +1013,17 @@ def fault_histories(seed, quick):
                             O('open_file', d='d0', name='B.BIN', mode='Create', as_='f1'), O('write', f='f1', n=upc), O('write', f='f1', n=1), O('close_file', f='f1'),
                             O('delete', d='d0', name='A.BIN'), O('mkdir', d='d0', name='LASTD')]
         add('FL-' + gname, img, ops)
+    # chains that cross from one FAT sector into the next (and a fragmented one that jumps back): delete and truncate read the
+    # FAT again in the middle of releasing the chain
+    for gname in ['G16a', 'G32a']:
+        img = image_of(gname, tree='T0', nfree=6, window_mid=True)
+        upc = img[1]
+        ops = prologue() + [O('open_file', d='d0', name='X.BIN', mode='Create', as_='f0'), O('write', f='f0', n=4 * upc), O('close_file', f='f0'),
+                            O('delete', d='d0', name='X.BIN'),
+                            O('open_file', d='d0', name='Y.BIN', mode='Create', as_='f1'), O('write', f='f1', n=5 * upc), O('close_file', f='f1'),
+                            O('open_file', d='d0', name='Y.BIN', mode='Truncate', as_='f2'), O('write', f='f2', n=1), O('close_file', f='f2'),
+                            O('open_file', d='d0', name='Y.BIN', mode='CreateOrTruncate', as_='f3')]
+        add('FT-' + gname, img, ops)
     # 128 blocks per cluster: faults inside the zeroing loop of a new directory cluster
     for gname in (['G16d'] if quick else ['G16d', 'G32d']):
         img = image_of(gname, tree='T0', nfree=3, bounds=[0])
